@@ -235,6 +235,11 @@ func buildFrames() []*fb {
 	}
 	add(newFrame("SearchRes/name30", 0x0202).hpai(1, 192, 168, 1, 7, 3671).dibDevInfo(nameFull).dibSvc(1))
 	add(newFrame("SearchRes/name-latin1", 0x0202).hpai(1, 192, 168, 1, 7, 3671).dibDevInfo(nameHigh).dibSvc(3))
+	// search responses that carry further description blocks behind the two mandatory ones (extended
+	// search responses do): the truncations and length substitutions of these reach whatever a decoder
+	// does with the rest of the frame
+	add(newFrame("SearchRes/+ipcfg", 0x0202).hpai(1, 192, 168, 1, 7, 3671).dibDevInfo(nameShort).dibSvc(2).dibRaw(8, 0x03, 6))
+	add(newFrame("SearchRes/+mfr+knxaddr", 0x0202).hpai(1, 192, 168, 1, 7, 3671).dibDevInfo(nameShort).dibSvc(1).dibRaw(6, 0xFE, 4).dibRaw(4, 0x05, 2))
 	// DESCR_REQ 0203 HPAI
 	add(newFrame("DescrReq", 0x0203).hpai(1, 192, 168, 1, 20, 3671))
 	// DESCR_RES 0204 DIB device-info | DIB service-families | [further DIBs]
